@@ -696,7 +696,7 @@ fn parse_extras_cursor<T: Pep508Url>(
 fn parse_url<T: Pep508Url>(
     cursor: &mut Cursor,
     working_dir: Option<&Path>,
-) -> Result<T, Pep508Error<T>> {
+) -> Result<(T, usize), Pep508Error<T>> {
     // wsp*
     cursor.eat_whitespace();
     // <URI_reference>
@@ -753,7 +753,8 @@ fn parse_url<T: Pep508Url>(
         input: cursor.to_string(),
     })?;
 
-    Ok(url)
+    // Also return where the URL text ends, for diagnostics.
+    Ok((url, start + len))
 }
 
 /// Identify the extras in a relative URL (e.g., `../editable[dev]`).
@@ -905,11 +906,14 @@ fn parse_pep508_requirement<T: Pep508Url>(
     cursor.eat_whitespace();
 
     // ( url_req | name_req )?
+    let mut url_end = None;
     let requirement_kind = match cursor.peek_char() {
         // url_req
         Some('@') => {
             cursor.next();
-            Some(VersionOrUrl::Url(parse_url(cursor, working_dir)?))
+            let (url, end) = parse_url(cursor, working_dir)?;
+            url_end = Some(end);
+            Some(VersionOrUrl::Url(url))
         }
         // name_req
         Some('(') => parse_version_specifier_parentheses(cursor)?,
@@ -941,8 +945,6 @@ fn parse_pep508_requirement<T: Pep508Url>(
             };
         }
     };
-
-    let requirement_end = cursor.pos();
 
     // If the requirement consists solely of a package name, and that name appears to be an archive,
     // treat it as a URL requirement, for consistency and security. (E.g., `requests-2.26.0.tar.gz`
@@ -984,7 +986,9 @@ fn parse_pep508_requirement<T: Pep508Url>(
                             message: Pep508ErrorSource::String(format!(
                                 "Missing space before '{c}', the end of the URL is ambiguous"
                             )),
-                            start: requirement_end - c.len_utf8(),
+                            // The last character of the URL text (the cursor itself may already
+                            // be past the line break or whitespace that ended the URL).
+                            start: url_end.unwrap_or(pos).saturating_sub(c.len_utf8()),
                             len: c.len_utf8(),
                             input: cursor.to_string(),
                         });
